@@ -299,6 +299,35 @@ mod dispatch {
             }
         };
     }
+    /// IEEE overflow / invalid results are VALUES (+-inf, NaN), never a failure: concrete boundary operands at each width
+    macro_rules! float_overflow {
+        ($name:ident, $variant:ident, $f:ty, $fty:expr) => {
+            #[kani::proof]
+            fn $name() {
+                let run = |x: $f, y: $f, op: FloatOperation| -> Option<$f> {
+                    let args = [SemValue::Literal(Literal::Float(FloatLiteral::$variant(x.to_bits()))), SemValue::Literal(Literal::Float(FloatLiteral::$variant(y.to_bits())))];
+                    let r = float_arithmetic($fty, op, &args);
+                    let got = match &r {
+                        | Ok(Computation::Ret(Return(v))) => match v.as_ref() {
+                            | Value::SemValue(SemValue::Literal(Literal::Float(FloatLiteral::$variant(b)))) => Some(<$f>::from_bits(*b)),
+                            | _ => None,
+                        },
+                        | _ => None,
+                    };
+                    core::mem::forget(r); core::mem::forget(args);
+                    got
+                };
+                assert!(run(<$f>::MAX, <$f>::MAX, FloatOperation::Add) == Some(<$f>::INFINITY));
+                assert!(run(<$f>::MIN, <$f>::MAX, FloatOperation::Sub) == Some(<$f>::NEG_INFINITY));
+                assert!(run(<$f>::MAX, 10.0, FloatOperation::Mul) == Some(<$f>::INFINITY));
+                assert!(run(1.0, 0.0, FloatOperation::Div) == Some(<$f>::INFINITY));
+                assert!(run(<$f>::MAX, <$f>::MIN_POSITIVE, FloatOperation::Div) == Some(<$f>::INFINITY));
+                assert!(matches!(run(0.0, 0.0, FloatOperation::Div), Some(v) if v.is_nan()));
+            }
+        };
+    }
+    float_overflow!(float_arithmetic_float32_overflow, Float32, f32, FloatType::Float32);
+    float_overflow!(float_arithmetic_float64_overflow, Float64, f64, FloatType::Float64);
     float_dispatch!(float_arithmetic_float32, Float32, u32, f32, FloatType::Float32);
     float_dispatch!(float_arithmetic_float64, Float64, u64, f64, FloatType::Float64);
 }
